@@ -192,6 +192,7 @@ def run(pid, tier, seed, do_replay=None):
             obs = lem(ctx)
         except Unsupported as u:
             status["undecided"].append("lemma %s: %s" % (getattr(lem, "__name__", "?"), u))
+            ctx.unsupported_lemmas = getattr(ctx, "unsupported_lemmas", []) + [(getattr(lem, "__name__", "?"), str(u))]
             continue
         except Exception:      # noqa
             status["errors"].append("lemma generator crashed: %s" % traceback.format_exc(limit=6))
@@ -338,6 +339,18 @@ def run(pid, tier, seed, do_replay=None):
                 n_viol = sum(1 for ln in lines if ln.startswith("VIOLATION"))
                 doubtful = [o for o in doubtful if (o.meta or {}).get("function") != q]
     unsupported_fns = [q for q, rep in ctx.reports.items() if rep.unsupported]
+    if not doubtful and getattr(ctx, "unsupported_lemmas", None) and plan.oracles:
+        # a composed run (lemma over the real code) left the modelled subset: undecided by proof; the oracle may still
+        # exhibit a failing input
+        class _UL:
+            pass
+        for nm, why in ctx.unsupported_lemmas:
+            u = _UL()
+            u.name, u.verdict, u.reason = "outside-modelled-subset:lemma:" + nm, "undecided", why[:200]
+            doubtful.append(u)
+        unsupported_lemma_names = ["lemma %s:" % nm for nm, _ in ctx.unsupported_lemmas]
+    else:
+        unsupported_lemma_names = []
     if not doubtful and unsupported_fns and plan.oracles:
         # code the executor cannot follow any more (construct outside the modelled subset): undecided by proof; the
         # native oracle may still exhibit a failing input
@@ -357,7 +370,8 @@ def run(pid, tier, seed, do_replay=None):
                 # the undecided/candidate entries of these obligations are superseded by the demonstrated violation
                 names = set(o.name for o in doubtful)
                 status["undecided"] = [u for u in status["undecided"] if not any(u.startswith(n) for n in names)
-                                       and not any(u.startswith(q + ": outside the modelled subset") for q in unsupported_fns)]
+                                       and not any(u.startswith(q + ": outside the modelled subset") for q in unsupported_fns)
+                                       and not any(u.startswith(n) for n in unsupported_lemma_names)]
                 lines = [ln for ln in lines if not any(("obligation=" + n) in ln for n in names)]
                 n_viol = sum(1 for ln in lines if ln.startswith("VIOLATION"))
                 n_viol += 1
